@@ -174,7 +174,7 @@ func runC07(t *testing.T, sc C07Scenario, keep bool) *core.Result {
 		got, cerr = compileOnce(&sc, in, dir)
 		verifhook.Attach(nil)
 		finished = true
-		res.TraceHash = fmt.Sprintf("free-%x-%s", sc.FileSeed, sc.settings())
+		res.TraceHash = strings.ReplaceAll(fmt.Sprintf("free-%x-%s", sc.FileSeed, sc.settings()), " ", "_")
 		res.Probe("free_running_big_file")
 	} else {
 		opt := sched.Options{Tape: sc.Tape, TapeSeed: sc.TapeSeed, Calm: sc.Calm, KeepSchedule: keep, MaxSteps: 400000, NoAdvanceWhileEnabled: true}
